@@ -107,6 +107,14 @@ int main(void)
 			else if (strcmp(op, "ckv") == 0) puts(is_checksum_valid((const tar_header_t *)buf) ? "1" : "0");
 			else { update_checksum((tar_header_t *)buf); hex_print(stdout, buf, 512); putchar('\n'); }
 			free(buf);
+		} else if (strcmp(op, "canonip") == 0) {
+			/* canonicalize_name() as a buffer transformer: return value and the C string left in the buffer */
+			char *a = next_tok(); unsigned char *buf; long n; int rc;
+			if (!a || (n = hex_decode_tok(a, &buf, 1)) < 0 || memchr(buf, 0, (size_t)n)) { puts("bad-op"); continue; }
+			rc = canonicalize_name((char *)buf);
+			printf("%d ", rc);
+			hex_print(stdout, buf, strlen((char *)buf)); putchar('\n');
+			free(buf);
 		} else if (strcmp(op, "pdl") == 0) {
 			char *a = next_tok();
 			if (!a) { puts("bad-op"); continue; }
